@@ -28,6 +28,34 @@ use std::time::{Duration, Instant};
 
 use derive_ex::verif_hooks::{expand_attr, expand_derive};
 
+fn none_groups(ts: TokenStream) -> TokenStream {
+    use proc_macro2::{Delimiter, Group, TokenTree};
+    let mut out: Vec<TokenTree> = Vec::new();
+    let mut it = ts.into_iter().peekable();
+    while let Some(tt) = it.next() {
+        match tt {
+            TokenTree::Ident(ref id) if id == "__dx_none" => {
+                if let Some(TokenTree::Group(g)) = it.peek() {
+                    if g.delimiter() == Delimiter::Parenthesis {
+                        let inner = none_groups(g.stream());
+                        it.next();
+                        out.push(TokenTree::Group(Group::new(Delimiter::None, inner)));
+                        continue;
+                    }
+                }
+                out.push(tt);
+            }
+            TokenTree::Group(g) => {
+                let mut n = Group::new(g.delimiter(), none_groups(g.stream()));
+                n.set_span(g.span());
+                out.push(TokenTree::Group(n));
+            }
+            t => out.push(t),
+        }
+    }
+    out.into_iter().collect()
+}
+
 fn main() {
     // Panics of the expander are events, not crashes: silence the default hook
     // and remember the message per thread.
@@ -332,6 +360,13 @@ fn observe(req: &Value) -> Value {
             resp["status"] = json!("lexerr");
             return resp;
         }
+    };
+    // `none_groups`: `__dx_none(..)` in the request text stands for a group without delimiters - what a macro_rules!
+    // `$e:expr` / `$t:ty` fragment looks like when it reaches a proc macro (such a group cannot be written as text)
+    let (attr, item) = if req.get("none_groups").and_then(|v| v.as_bool()).unwrap_or(false) {
+        (none_groups(attr), none_groups(item))
+    } else {
+        (attr, item)
     };
     resp["item_is_item"] = json!(syn::parse2::<syn::Item>(item.clone()).is_ok());
     resp["item_is_derive_input"] = json!(syn::parse2::<syn::DeriveInput>(item.clone()).is_ok());
